@@ -24,6 +24,10 @@ import (
 	"0chain.net/core/encryption"
 	"0chain.net/miner"
 	"0chain.net/smartcontract/dbs/event"
+	"0chain.net/smartcontract/faucetsc"
+	"0chain.net/smartcontract/vestingsc"
+	"0chain.net/smartcontract/zcnsc"
+	sci "0chain.net/chaincore/smartcontractinterface"
 	"0chain.net/smartcontract/minersc"
 	"github.com/0chain/common/core/currency"
 	"github.com/0chain/common/core/statecache"
@@ -41,6 +45,9 @@ const (
 	IDScript   = 1
 	IDNoSC     = 2
 	FirstUser  = 3
+	IDFaucet   = 12 // wallets of the real contracts (histories with Real set)
+	IDVesting  = 13
+	IDZcn      = 14
 	MaxAccount = 16
 )
 
@@ -65,6 +72,12 @@ func AccountID(i int) string {
 		return ScriptAddress
 	case i == IDNoSC:
 		return noSCAddress
+	case i == IDFaucet:
+		return faucetsc.ADDRESS
+	case i == IDVesting:
+		return vestingsc.ADDRESS
+	case i == IDZcn:
+		return zcnsc.ADDRESS
 	}
 	return encryption.Hash(fmt.Sprintf("verif client %d", i))
 }
@@ -157,6 +170,7 @@ type Recorded struct {
 	Signed   []Tr
 	Events   []int
 	Reads    []Read
+	Real     bool   // recorded around a real contract (faucetsc, vestingsc, zcnsc)
 	Class    string // ok | chargeable | internal
 	Out      int
 	AddTrErr int // number of AddTransfer calls the context refused
@@ -384,6 +398,9 @@ type Txn struct {
 	Nonce  int64  `json:"nonce"`
 	Round  int64  `json:"round"`
 	Script Script `json:"script"`
+	// a call of a real contract (To = IDFaucet | IDVesting | IDZcn): function name and JSON input
+	Fn    string `json:"fn,omitempty"`
+	Input string `json:"input,omitempty"`
 }
 
 // Ev is a canonical event: K = script|error|unique|user|other.
@@ -498,6 +515,11 @@ func (s *State) Apply(idx int, t Txn) (res Result) {
 		txn.TransactionData = string(d)
 		txn.FunctionName = "run"
 		txn.InputData = in
+		if t.Fn != "" {
+			txn.FunctionName = t.Fn
+			txn.InputData = []byte(t.Input)
+			txn.TransactionData = fmt.Sprintf(`{"name":%q,"input":%s}`, t.Fn, orNull(t.Input))
+		}
 	}
 	b := &block.Block{}
 	b.Round = t.Round
@@ -629,4 +651,95 @@ func Classify(stateNonce *int64, txnNonce int64) int {
 		return 2
 	}
 	return 3
+}
+
+func orNull(s string) string {
+	if s == "" {
+		return "null"
+	}
+	return s
+}
+
+// ---------- the real faucetsc / vestingsc / zcnsc contracts ----------
+
+var acctIndex map[string]int
+
+// AccountIndex maps a client id string back to its account number (-999 = not in the universe).
+func AccountIndex(id string) int {
+	if acctIndex == nil {
+		acctIndex = map[string]int{}
+		for i := 0; i < MaxAccount; i++ {
+			acctIndex[AccountID(i)] = i
+			acctIndex[AccountID(UpperBase+i)] = UpperBase + i
+		}
+	}
+	if i, ok := acctIndex[id]; ok {
+		return i
+	}
+	return -999
+}
+
+// recSC wraps a real contract: after its Execute returns, what it queued in the state context is
+// recorded (before updateState appends the fee transfer).
+type recSC struct{ sci.SmartContractInterface }
+
+func (p *recSC) Execute(t *transaction.Transaction, fn string, input []byte, b cstate.StateContextI) (string, error) {
+	rec := &Recorded{Called: true, Real: true}
+	theScript.last = rec
+	out, err := p.SmartContractInterface.Execute(t, fn, input, b)
+	for _, tr := range b.GetTransfers() {
+		rec.Trs = append(rec.Trs, Tr{AccountIndex(tr.ClientID), AccountIndex(tr.ToClientID), uint64(tr.Amount)})
+	}
+	for _, tr := range b.GetSignedTransfers() {
+		rec.Signed = append(rec.Signed, Tr{AccountIndex(tr.ClientID), AccountIndex(tr.ToClientID), uint64(tr.Amount)})
+	}
+	switch {
+	case err == nil:
+		rec.Class = "ok"
+	case cstate.ErrInvalidState(err) || err == transaction.ErrSmartContractContext:
+		rec.Class = "internal"
+	default:
+		rec.Class = "chargeable"
+	}
+	return out, err
+}
+
+const RealOwner = "1746b06bb09f55ee01b33b5e2e055d6cc7a900cb57c0a3a5eaabb8a0e7745802"
+
+// VestingPoolID is the id vestingsc gives the pool created by transaction idx.
+func VestingPoolID(idx int) string { return vestingsc.ADDRESS + ":vestingpool:" + TxnHash(idx) }
+
+// NewRealState: like NewState, plus the real contracts registered in smartcontract.ContractMap and
+// their configuration nodes in the trie.
+func NewRealState(env *Env, u *Universe, init []Acct) *State {
+	smartcontract.ContractMap[faucetsc.ADDRESS] = &recSC{faucetsc.NewFaucetSmartContract()}
+	smartcontract.ContractMap[vestingsc.ADDRESS] = &recSC{vestingsc.NewVestingSmartContract()}
+	smartcontract.ContractMap[zcnsc.ADDRESS] = &recSC{zcnsc.NewZCNSmartContract()}
+	st := NewState(env, u, init, nil)
+	setup := sc.NewCtx(st.MPT, 1, sc.Txn(encryption.Hash("verif real setup"), RealOwner, faucetsc.ADDRESS, 0, 0))
+	fgn := &faucetsc.GlobalNode{ID: faucetsc.ADDRESS, FaucetConfig: &faucetsc.FaucetConfig{PourAmount: 10, MaxPourAmount: 100,
+		PeriodicLimit: 250, GlobalLimit: 600, IndividualReset: 5 * time.Second, GlobalReset: 20 * time.Second,
+		OwnerId: RealOwner, Cost: map[string]int{}}}
+	if _, err := setup.InsertTrieNode(fgn.GetKey(), fgn); err != nil {
+		panic(err)
+	}
+	v := config.SmartContractConfig
+	p := "smart_contracts.vestingsc."
+	v.Set(p+"min_lock", 0.000000001)
+	v.Set(p+"min_duration", 2*time.Second)
+	v.Set(p+"max_duration", 1000*time.Hour)
+	v.Set(p+"max_destinations", 3)
+	v.Set(p+"max_description_length", 20)
+	v.Set(p+"owner_id", RealOwner)
+	if err := vestingsc.InitConfig(setup); err != nil {
+		panic(err)
+	}
+	zgn := &zcnsc.GlobalNode{ID: zcnsc.ADDRESS, ZCNSConfig: &zcnsc.ZCNSConfig{
+		MinMintAmount: 1, MinBurnAmount: 5, MinStakeAmount: 1, MinStakePerDelegate: 1, MaxStakeAmount: 1000,
+		MinLockAmount: 1, MinAuthorizers: 1, PercentAuthorizers: 0.7, MaxFee: 100, OwnerId: RealOwner, Cost: map[string]int{},
+		MaxDelegates: 10, HealthCheckPeriod: time.Hour}}
+	if err := zgn.Save(setup); err != nil {
+		panic(err)
+	}
+	return st
 }
